@@ -12,7 +12,7 @@ from ..vlib import core
 from .. import ag_common as AG
 
 KINDS = {"leaf_grad": "C03", "once": "C03", "order": "C03", "error": "C03", "value": "C03"}
-ALL = {"add", "mul", "sub", "neg", "sq", "sum", "idx", "stack", "unbind", "clone", "gather"}
+ALL = {"add", "mul", "sub", "neg", "sq", "sum", "idx", "stack", "unbind", "clone", "gather", "vmax"}
 CORE = {"add", "mul", "sub", "sq", "sum", "idx", "stack", "unbind"}      # (the thorough tier's deepest instances: 8 operators keep TLC within its heap)
 VS = [dict(vec=True, rg=True), dict(vec=False, rg=True)]
 SS = [dict(vec=False, rg=True), dict(vec=False, rg=False)]
@@ -41,7 +41,7 @@ def run(ctx):
                 # tensors / parameters constructed from an existing leaf are leaves of their own
                 ("prog-copy", dict(MaxNodes=4, GAlpha={-2, 3}, Ops={"add", "mul"}, UseVec=True, MaxHist=4, MaxBackward=1,
                                    Acts={"op", "bw", "copyleaf"}, InitLeaves=[dict(vec=True, rg=True)]), 40000),
-                ("prog-fanout", dict(MaxNodes=5, GAlpha={-2, 3}, Ops={"unbind", "idx", "gather", "sum", "add"}, UseVec=True, MaxHist=4, MaxBackward=1,
+                ("prog-fanout", dict(MaxNodes=5, GAlpha={-2, 3}, Ops={"unbind", "idx", "gather", "vmax", "sum", "add"}, UseVec=True, MaxHist=4, MaxBackward=1,
                                      Acts={"op", "bw"}, InitLeaves=[dict(vec=True, rg=True)]), 30000)]
         sims = [("sim", dict(MaxNodes=9, GAlpha={1, -2, 3}, Ops=ALL, UseVec=True, MaxHist=9, MaxBackward=1, Acts={"op", "bw"},
                              InitLeaves=[dict(vec=False, rg=True), dict(vec=True, rg=True), dict(vec=False, rg=False)]), 80)]
